@@ -40,7 +40,7 @@ def functions():
 
 def bounds(tier):
     q = tier == "quick"
-    return {"script_events": "6 from a fresh start, 5 after a prefix" if q else "7 / 6", "fault_budget": 2, "generations": "<= 3 rebalances", "prefix_states": ["fresh", "stable", "stable + heartbeat in flight", "stable + auto-commit and heartbeat in flight", "rejoining with the old heartbeat unanswered"], "partitions": 2,
+    return {"script_events": "6 from a fresh start, 5 after a prefix, 8 in the fault-free synchronous-consumer-failure job" if q else "7 / 6 / 9", "fault_budget": 2, "generations": "<= 3 rebalances", "prefix_states": ["fresh", "stable", "stable + heartbeat in flight", "stable + auto-commit and heartbeat in flight", "rejoining with the old heartbeat unanswered"], "partitions": 2,
             "outside": "more than 2 members / 2 partitions; real KafkaClient underneath (C07)"}
 
 
